@@ -31,6 +31,9 @@ def main(argv=None):
     from . import verify
     modname = 'contracts.%s' % prop.lower()
     rep = verify.Report(prop, a.tier)
+    import glob
+    for f in glob.glob(os.path.join(os.environ.get('VF_REPLAY_DIR') or os.path.join(VERIF, 'replays'), '%s_*.json' % prop)):
+        os.unlink(f)                      # replay files of earlier runs of this property
     known = verify.load_known(prop)
     try:
         mod = importlib.import_module(modname)
